@@ -19,12 +19,23 @@ for d in sorted(os.listdir(os.path.join(V, "seeded"))):
         col += " — *" + m["note"].replace("|", "/") + "*"
     rows.append("| %s | %s | %s | %s | %s |" % (d.split("-")[0], m.get("breaks_property", ""), m.get("change", "").replace("|", "/")[:150],
                                           m.get("needs_to_manifest", "").replace("|", "/")[:150], col))
+metas = []
+for d in sorted(os.listdir(os.path.join(V, "seeded"))):
+    mp = os.path.join(V, "seeded", d, "meta.json")
+    if os.path.exists(mp):
+        metas.append((d.split("-")[0], json.load(open(mp))))
+n_all = len(metas)
+missed = [i for i, m in metas if not m.get("detected_by")]
+own = [i for i, m in metas if m.get("detected_by") and m.get("breaks_property") in m["detected_by"]]
+other = [i for i, m in metas if m.get("detected_by") and m.get("breaks_property") not in m["detected_by"]]
 tab = ("Each change was produced by an independent sub-agent that saw only the text of one property and a scratch worktree; each compiles, passes the 38 tests,\n"
        "and comes with a demonstration (`seeded/<id>/demo.rs`) that fails with the patch and passes without it (`tools/confirm_seed.py`). The last column is the\n"
-       "outcome of running every claimed check (quick tier) on a scratch worktree with the patch applied (`tools/run_seeds.py`, one consistent snapshot of /verif); the first\n"
-       "violated obligation is quoted. Of S01–S56, 49 were reported in that run (S45 only incidentally, see its row), S54 and S50 since the slow-path decision rule and the hi64 class rule were added afterwards; S30, S34, S37, S53, S56 are missed. S57–S64 (a last batch, run separately): 4 reported, S57 since `try_fast_path` joined the wrap-free callers, S62–S64 missed. All misses are numerical decisions (reasons in the table). Reports by checks other than the one\n"
+       "outcome of running every claimed check (quick tier) on a scratch worktree with the patch applied (`tools/run_seeds.py`, one consistent snapshot of /verif, final state); the first\n"
+       "violated obligation is quoted. Of the %d seeds, %d are reported by at least one check -- %d of them by the check of the property they were written against, %d only by another check (%s) -- and %d are missed (%s). "
+       "All misses are numerical decisions (reasons in the table). Several rules were built *after* a seed had shown the gap (the slow-path decision rule, the hi64 classes, the tie window as applied, wrap-free, "
+       "the window-width agreement, the dropped-digits flag, the libm constants); the table shows the final state, the history is in section 5. Reports by checks other than the one\n"
        "the seed targets are mostly fail-closed side effects (an API the summaries do not know, a changed audited key) and say nothing about that other property.\n\n"
-       "| seed | property it breaks | change | needs, to manifest | detected by |\n|---|---|---|---|---|\n" + "\n".join(rows) + "\n")
+       "| seed | property it breaks | change | needs, to manifest | detected by |\n|---|---|---|---|---|\n" % (n_all, n_all - len(missed), len(own), len(other), ", ".join(other) or "none", len(missed), ", ".join(missed) or "none") + "\n".join(rows) + "\n")
 p = os.path.join(V, "DESIGN.md")
 s = open(p).read()
 a, b = s.index("<!-- SEED-TABLE-BEGIN -->"), s.index("<!-- SEED-TABLE-END -->")
